@@ -26,7 +26,7 @@ var oracleErrClasses = [][2]string{
 }
 
 func runC19(o *out, r *rng, thorough bool, replay string) {
-	o.Rule = "oracle: honestly produced decisions and forged / under-powered variants (wrong instance, step, round, empty, wrong base, signer out of range, signer set below 2/3 signed by exactly those signers, bad aggregate) are reported through the simulator's decision-notification path, for skewed power tables incl. zero-scaled members; certchain: certificate chains generated over a model EC whose power table changes every epoch, for all (look-back, initial instance) settings, committee of every instance compared with the table at the head finalized look-back instances earlier and with the node's GetCommittee; non-trivial = decision differs from an honest one in exactly the quorum weight or one header field"
+	o.Rule = "oracle: honestly produced decisions and forged / under-powered variants (wrong instance, step, round, empty, wrong base, signer out of range, signer set below 2/3 signed by exactly those signers, bad aggregate) are reported through the simulator's decision-notification path, for skewed power tables incl. zero-scaled members; certchain: certificate chains generated over a model EC whose power table changes every epoch, for all (look-back, initial instance) settings, committee of every instance compared with the table at the head finalized look-back instances earlier and with the node's GetCommittee; non-trivial = decision differs from an honest one in exactly the quorum weight or one header field; after every accepted honest decision, forgeries re-using its signers and aggregate for another value / other supplemental data are presented to the same oracle"
 	x := &c04ctx{t: newTok(), sigs: map[string]*sigRec{}}
 	t := x.t
 	ctx := context.Background()
